@@ -195,10 +195,10 @@ def subchecks(tier):
             prop,
             quick=400,
             thorough=30000,
-            floors={"multi_period_charging": 0.271, "pilot_on_vacant_station": 0.2, "noisy_battery_charged": 0.1, "battery_filled": 0.077, "mixed_voltage": 0.3, "fractional_period": 0.05, "scheduler_swapped_mid_run": 0.15, "peak_before_swap": 0.03},
+            floors={"multi_period_charging": 0.236, "pilot_on_vacant_station": 0.164, "noisy_battery_charged": 0.1, "battery_filled": 0.077, "mixed_voltage": 0.3, "fractional_period": 0.05, "scheduler_swapped_mid_run": 0.15, "peak_before_swap": 0.03},
             min_nontrivial=20,
         ),
-        Given("ledger_replug", replug_cases(), prop_replug, quick=800, thorough=60000, floors={"ev_object_used_again": 0.3, "reset_between_sessions": 0.3}, jobs_quick=2),
+        Given("ledger_replug", replug_cases(), prop_replug, quick=800, thorough=60000, floors={"ev_object_used_again": 0.185, "reset_between_sessions": 0.185}, jobs_quick=2),
         Given("ledger_stochastic", stochastic_cases(), prop_stochastic, quick=200, thorough=15000, floors={"early_departure_swap": 0.1, "queue_admission": 0.3}),
     ]
 
